@@ -19,6 +19,7 @@ ENGINES = {
     'proxyflow': dict(quick=250, thorough=5000),
     'forward': dict(quick=120, thorough=3000),
     'authflow': dict(quick=150, thorough=4000),
+    'htmlesc': dict(quick=3000, thorough=100000),
 }
 
 PROPS = {
@@ -34,6 +35,7 @@ PROPS = {
     'C10': dict(spec_mods=['SsoSpec.C10'], engines=['authflow']),
     'C11': dict(spec_mods=['SsoSpec.C11'], engines=['validators', 'proxyflow']),
     'C19': dict(spec_mods=['SsoSpec.C19'], engines=['authflow', 'proxyflow']),
+    'C20': dict(spec_mods=['SsoSpec.C20'], engines=['htmlesc', 'authflow', 'proxyflow']),
     'C18': dict(spec_mods=['SsoSpec.C18'], engines=['proxyflow', 'authflow']),
     'C12': dict(spec_mods=['SsoSpec.C12'], engines=['forward']),
     'C13': dict(spec_mods=['SsoSpec.C13'], engines=['proxyflow']),
@@ -58,7 +60,7 @@ AF_FLOOR = ['authflow:signin/code', 'authflow:signin/page', 'authflow:signin/err
             'authflow:outside-service']
 FW_FLOOR = ['forward:authenticated', 'forward:skip-auth', 'forward:connection-nominates-tracked', 'forward:session-cookie-present', 'forward:rsa/verifies', 'forward:rsa/mismatch', 'forward:hmac/on']
 FLOORS = {
-    'C03': FW_FLOOR, 'C12': FW_FLOOR, 'C07': AF_FLOOR, 'C08': AF_FLOOR, 'C09': AF_FLOOR, 'C10': AF_FLOOR, 'C19': AF_FLOOR + PF_FLOOR,
+    'C03': FW_FLOOR, 'C12': FW_FLOOR, 'C07': AF_FLOOR, 'C08': AF_FLOOR, 'C09': AF_FLOOR, 'C10': AF_FLOOR, 'C19': AF_FLOOR + PF_FLOOR, 'C20': ['htmlesc:escaped', 'htmlesc:verbatim', 'authflow:signin/page', 'authflow:signout/page', 'authflow:signout/revoke-failed', 'authflow:gate/SignIn/400', 'proxyflow:cb/errorParam'],
     'C01': PF_FLOOR, 'C04': PF_FLOOR, 'C05': PF_FLOOR, 'C13': PF_FLOOR, 'C06': PF_FLOOR, 'C18': PF_FLOOR,
     'C14': ['config:loaded', 'config:loaded/skip-regex', 'config:error/missingService', 'config:error/missingFrom', 'config:error/missingTo',
             'config:error/badFromUrl', 'config:error/badFromRegex', 'config:error/unknownType', 'config:error/badSkipRegex',
@@ -109,7 +111,7 @@ FW_TB = ["the real sso-proxy tree on a loopback socket in front of a recording b
             "httputil.ReverseProxy's request-header editing is modelled for the tracked headers only (Connection-nominated and hop-by-hop removal); Director/X-Forwarded-For/User-Agent handling and net/http transport framing are not modelled (the backend's own record is the ground truth for Content-Length)",
             "modelled: Authenticate's header injection, deleteCookie, the signing document of request_signer.go; RSA-PKCS1v15/SHA-256 and HMAC-SHA256 are idealised (a signature verifies iff the signing documents are equal) — the backend verifies the real signatures with the real published key"]
 TB = {
-    'C03': FW_TB, 'C12': FW_TB, 'C07': AF_TB, 'C08': AF_TB, 'C09': AF_TB, 'C10': AF_TB, 'C19': AF_TB + PF_TB,
+    'C03': FW_TB, 'C12': FW_TB, 'C07': AF_TB, 'C08': AF_TB, 'C09': AF_TB, 'C10': AF_TB, 'C19': AF_TB + PF_TB, 'C20': ['html/template contextual escaping is modelled for text nodes and double-quoted attribute values only (the only contexts the templates use — regenerated and re-proved) and compared byte for byte with html/template on generated payloads', 'the template context scanner lives in the extractor (trusted); page structure on the real handlers is judged with golang.org/x/net/html', 'encoding/json is uninterpreted: JSON error bodies are re-parsed by the harness'] + AF_TB,
     'C01': PF_TB, 'C04': PF_TB, 'C05': PF_TB, 'C13': PF_TB, 'C06': PF_TB + ['C06 additionally rests on C02 (sealing model) for "different ciphertexts"; the same-host claim for the recorded URI relies on gorilla/mux path cleaning and net/url serialisation, which are oracles here (differential only): see level_note'], 'C18': PF_TB + ['net/http TimeoutHandler and httputil.ReverseProxy header copying are modelled (Harden.lean) from reading and tied differentially; the sso-auth half of C18 is checked by the authflow engine'],
     'C14': ["yaml.v2 parsing is not modelled: the harness renders a generated structured document to YAML for the real loader and ships the structured form to the model",
             "mergo v0.3.7 is modelled for the struct shapes it is applied to (override / fill; pointer, slice, map, scalar rules) and tied differentially; url.Parse, regexp.Compile and hmacauth's digest table are oracles (theorems hold for every behaviour)",
@@ -138,7 +140,7 @@ PF_RULE = "proxyflow: real proxy with three upstreams (static domain-rule + skip
 AF_RULE = "authflow: fixed prelude of ~250 steps (every gate failure per route; 28 redirect-URI corner cases each at /sign_in and /sign_out: userinfo, ports, case, trailing dot, look-alike suffixes, scheme-relative, odd schemes, backslash, control characters, IPv6 zone, percent-encoding; signature manglings: wrong/absent/other-URI/other-secret MAC, re-split digit, std-alphabet base64, ts just inside/outside 300 s, future, non-numeric; cookie kinds; IdP validate/refresh outcomes per error class; /start with good/bad nested redirect; /callback with id_tokens of 0-5 segments, bad base64/JSON, unverified/empty e-mail, token endpoint statuses/transport/raw bodies, Okta userinfo variants, nonce/CSRF/state manglings; sign-out GET/POST x cookie kinds x revoke outcomes incl. already-revoked, then reuse of the old cookie; back-channel routes x credential placements (form, query, header, duplicated, prefix, upper-case, empty, missing) x code kinds) then random recombination: 6-15 prelude steps per case with redirect URI, signature mangling, ts offset, session e-mail/deadlines, id_token, userinfo, Accept header and provider mutated; non-trivial = a request passed all gates of its route; distinct = distinct case hash"
 FW_RULE = "forward: cases of 3-8 raw requests each against one upstream with signer on/off x HMAC key on/off x inject headers: authenticated / skip-auth / unauthenticated; identity and covered headers in any spelling and multiplicity incl. empty values; Connection headers nominating protected/covered headers; 0-2 Cookie lines built from pieces (other cookies, quoted values, spaces, commas, the session cookie first/middle/last/duplicated, a forged session cookie, look-alike names); methods; encoded paths and queries; no/small/binary/64 KiB bodies, sized or chunked, explicit Content-Length: 0; fixed prelude; non-trivial = the request reached the backend; distinct = distinct case hash"
 RULES = {
-    'C03': FW_RULE, 'C12': FW_RULE, 'C07': AF_RULE, 'C08': AF_RULE, 'C09': AF_RULE, 'C10': AF_RULE, 'C19': AF_RULE + ' || ' + PF_RULE,
+    'C03': FW_RULE, 'C12': FW_RULE, 'C07': AF_RULE, 'C08': AF_RULE, 'C09': AF_RULE, 'C10': AF_RULE, 'C19': AF_RULE + ' || ' + PF_RULE, 'C20': 'htmlesc: 20 hand-picked payloads (markup, quote breaks, entities, NUL, UTF-7, comments, CDATA, template syntax) + random strings over a 20-symbol alphabet of structural, ASCII and multi-byte characters rendered by html/template in text and quoted-attribute context; authflow/proxyflow: every sign-in, sign-out and error page rendered while exploring C06-C10/C19 with payloads in error, redirect_uri, sig, ts, state, e-mail, Host-derived and provider-message positions; non-trivial = a payload needing escaping; distinct = distinct case hash || ' + AF_RULE,
     'C01': PF_RULE, 'C04': PF_RULE, 'C05': PF_RULE, 'C13': PF_RULE, 'C06': PF_RULE, 'C18': PF_RULE + ' || C18 monitor runs on every response of every step; dedicated secure-cookie case with an upstream that sets, duplicates and case-varies the protected headers, header_overrides, cookie domain',
     'C14': "documents of 1-3 services x default/prod/staging blocks (present, absent, null) x optional options (each field independently set; maps with overlapping keys and empty values; bad regex; per-upstream provider_slug) x 0-2 extra routes x route types (simple, rewrite, unknown) x from/to incl. template variables, unparsable hosts, missing; cluster prod/staging/default; deployment defaults each on/off; HMAC key specs good/bad; fixed prelude with one document per error kind; non-trivial = loading succeeded with at least one upstream; distinct = distinct case hash",
     'C02': "per case one value (session or flow record; empty, Unicode, NUL, 300-byte fields, up to 40 groups) sealed twice under key 1 and once under key 2; variants of the sealed string: every single-bit flip and every truncation (first 3 cases; 48 random flips and sampled truncations otherwise), byte truncations/prefix drops, extensions/prependings by alphabet chars, '=', CR, LF, space, NUL, std alphabet, padded forms, CR/LF insertion at 5 positions and between all chars, every trailing-bit variant of the last character, nonce/body swap, nonce only, body only, nonce from the other seal, body from the other key, empty, random bytes/strings; non-trivial = always (each case opens the genuine value); distinct = distinct case hash",
@@ -154,6 +156,7 @@ ASSUME = {
     'C08': ["ideal AEAD (C02) for authorization codes", "ParseForm succeeds on generated requests"],
     'C09': ["ideal AEAD (C02) for the authenticator cookie", "the scripted IdP answers stand for the provider's current verdict"],
     'C10': ["encoding/json and base64 decoding of provider bodies are oracles", "Cognito is not exercised (AWS SDK); its Redeem is covered by reading only"],
+    'C20': ["a value rendered through html/template in the two proven-safe contexts is exactly htmlEscape of it (differential)", "browsers tokenise as the HTML standard says (the model covers the two states involved)"],
     'C19': ["a revoked token no longer validates/refreshes at the IdP (the single assumption about the IdP)", "as C04/C05 for the proxy half"],
     'C03': ["net/http parsing as oracle", "the session presented by authenticated requests is valid and fresh (gates are C01's business)"],
     'C12': ["RSA/HMAC idealised in the theorems; verified for real by the backend", "upstream `to` is a bare host (as in the property)"],
